@@ -280,12 +280,12 @@ func reloadMutate(r *Rng, cur *reloadQ, pool map[string]*reloadQ, ntypes int) *r
 				q.children = append(q.children, &reloadQ{name: name, max: r.res(ntypes, 3, 30, true)})
 			}
 		}
-		if !q.parent && r.Chance(7) {
+		if !q.parent && r.Chance(3) {
 			// a leaf becomes a parent (DESIGN section 7 finding 19 when it holds applications)
 			q.parent = true
 			q.guar = nil
 			q.children = append(q.children, &reloadQ{name: "sub"})
-		} else if q.parent && r.Chance(4) {
+		} else if q.parent && r.Chance(2) {
 			q.parent = false
 			q.children = nil
 		}
